@@ -6,7 +6,7 @@ from vlib import env, core, gen, asserts, printer, gread, geom, kf  # noqa: F401
 ID = "C02"
 BUDGET = {"quick": 2500, "thorough": 25000}
 PROFILE = gen.profile(retract="wild", rebase=True, reg_events=False, exact=False, arc_r=True, arc_rel=True,
-                      e_rel_ok=True, g10pl=True, visits=False, scripts=True, at_w=1)
+                      e_rel_ok=True, g10pl=True, visits=False, scripts=True, at_w=3, offon=3)
 RULE = ("The path is generated first (moves, I/J and R arcs incl. under G91, matched/unmatched/combined E-only and G10/G11 "
         "retractions, G10 with P/L, G92 X/Y/Z/E in absolute mode, G20/G21, G90/G91 incl. relative extrusion when G90 influences "
         "the extruder, G28, configured extended and unknown codes, non-enabling @-commands); then the regions are placed by "
@@ -62,7 +62,7 @@ def cases(draw):
         # centre) make the filter test other points than the printer visits; those ops are not rendered
         p = dict(p, rebase=not kf.is_open("KF-G92-XYZ-SIGN"), arc_r=not kf.is_open("KF-C16-RCENTRE"))
     rnd = gen.Renderer(cfg, [], p, delta, fw, False)
-    rnd.no_enable = True
+    rnd.no_enable = (mode == "disabled")     # in the other modes exclusion may be switched off and on again at will
     rnd.start()
     if mode == "disabled":
         rnd.prog.insert(1, ["at", "ExcludeRegion", "off"])
@@ -74,19 +74,36 @@ def cases(draw):
     elif mode == "clear":
         # points and arc boxes visited by the unfiltered run
         pr = printer.Printer(bool(cfg.get("g90e")))
-        pts, boxes = [(0.0, 0.0)], []
+        pts, boxes, axis_cross = [(0.0, 0.0)], [], []
         for item in rnd.prog:
             if item[0] != "g":
                 continue
+            before = (pr.x, pr.y)
             stp = pr.execute(item[1])
             if pr.x is not None:
+                if stp.kind == "linear" and before[0] is not None and (pr.x != before[0]) != (pr.y != before[1]):
+                    # single-axis move: a filter whose other axis is stale would believe the tool is at (new, stale)
+                    for q in pts[-12:]:
+                        axis_cross.append((pr.x, q[1]) if pr.x != before[0] else (q[0], pr.y))
                 pts.append((pr.x, pr.y))
             if stp.arc is not None:
                 a = stp.arc
                 boxes.append((a.cx - a.r, a.cy - a.r, a.cx + a.r, a.cy + a.r))
+        # "cross" candidates: small regions centred on (x of one visited point, y of another) - a place the tool never
+        # goes, but where a filter with a stale axis would believe it is
+        for k in range(draw(st.integers(0, 4))):
+            if axis_cross and draw(st.booleans()):
+                px = py = axis_cross[draw(st.integers(0, len(axis_cross) - 1))]
+            else:
+                px = pts[draw(st.integers(0, len(pts) - 1))]
+                py = pts[draw(st.integers(0, len(pts) - 1))]
+            if draw(st.booleans()):
+                cands.append({"type": "rect", "x1": px[0] - 0.6, "y1": py[1] - 0.6, "x2": px[0] + 0.6, "y2": py[1] + 0.6, "id": "x%d" % k})
+            else:
+                cands.append({"type": "circ", "cx": px[0], "cy": py[1], "r": 0.8, "id": "x%d" % k})
         for c in cands:
             f = fit(c, pts, boxes)
-            if f is not None:
+            if f is not None and (f["type"] == "circ" or (f["x1"] > 2 or f["y1"] > 2 or True)):
                 regions.append(f)
     return {"config": cfg, "regions": regions, "prog": rnd.prog,
             "meta": {"mode": mode, "fw": fw, "excluded_known": rnd.excluded_known}}
